@@ -156,7 +156,7 @@ func H_QItemOutcomes() {
 		case oError, oPanic, oTimeoutErr:
 			verif.Assert(retried, "a failed or panicked reconcile is retried (fresh reconcile) once faults cease")
 			verif.Assert(delay > 0, "the retry comes after a positive backoff")
-			verif.Assert(delay >= lastFailDelay, "backoff grows (never shrinks) across consecutive failures")
+			verif.Assert(lastFailDelay == 0 || delay > lastFailDelay, "backoff grows across consecutive failures (jitter fixed at its mid value)")
 			if lastFailDelay == 0 {
 				verif.Cover("first failure")
 			} else if delay > lastFailDelay {
@@ -254,7 +254,7 @@ func H_ControllerRestarts() {
 				verif.Assert(last == 0 || d <= last, "ResetRestartBackoff returns the backoff to its initial interval")
 				verif.Cover("backoff reset")
 			} else {
-				verif.Assert(d >= last, "restart backoff grows across consecutive failures")
+				verif.Assert(last == 0 || d > last, "restart backoff grows across consecutive failures (jitter fixed at its mid value)")
 			}
 			last = d
 		} else {
@@ -320,7 +320,7 @@ func H_TaskRestarts() {
 		if i+1 < len(s.calls) {
 			verif.Assert(s.script[i] != oOK, "only a failed or panicked task run is restarted")
 			d := s.calls[i+1].Sub(s.calls[i])
-			verif.Assert(d > 0 && d >= last, "task restarts come after a positive, growing backoff")
+			verif.Assert(d > 0 && (last == 0 || d > last), "task restarts come after a positive, growing backoff (jitter fixed at its mid value)")
 			last = d
 		} else {
 			verif.Assert(i >= len(s.script) || s.script[i] == oOK, "a failed or panicked task run is always restarted")
